@@ -596,7 +596,7 @@ int _vnacal_apply_common(vnacal_apply_args_t vaa)
 	return -1;
     }
     for (int i = 0; i < vaa.vaa_frequencies - 1; ++i) {
-	if (vaa.vaa_frequency_vector[i] >= vaa.vaa_frequency_vector[i + 1]) {
+	if (!(vaa.vaa_frequency_vector[i] < vaa.vaa_frequency_vector[i + 1])) {
 	    _vnacal_error(vcp, VNAERR_USAGE, "%s: non-increasing frequencies",
 		    vaa.vaa_function);
 	    return -1;
